@@ -39,6 +39,9 @@ def items(tier, seed):
     for c in db.IterCategories():
         out.append({"k": "cat", "c": c})
         out.append({"k": "cat_redefined", "c": c})
+    for u in ("m", "degC", "psi"):
+        out.append({"k": "aux_exotic_values", "u": u})
+    out.append({"k": "cat_fractional_default"})
     for cap_kind in ("unknown", "known_unit", "derived"):
         out.append({"k": "captioned", "q": cap_kind})
     out[0]["canary"] = True
@@ -71,6 +74,31 @@ def run(cfg, V):
             except Exception as e:  # noqa
                 return {"nocat_exc": type(e).__name__}
             return {"nocat_exc": None}
+        if cfg["k"] == "cat_fractional_default":
+            # a category whose default value has a fractional part (all stock categories default to 0)
+            db.AddCategory("c19 frac", "length", default_unit="in", default_value=v)
+            c = "c19 frac"
+            return {"scalar": _all_equal([Scalar(c), Scalar(v, "in", c), Scalar(c, v, "in"), Scalar(ObtainQuantity("in", c), v), Scalar.CreateWithQuantity(ObtainQuantity("in", c), v)]),
+                    "fraction": _all_equal([FractionScalar(c), FractionScalar(v, "in", c), FractionScalar(c, v, "in"), FractionScalar(ObtainQuantity("in", c), v), FractionScalar.CreateWithQuantity(ObtainQuantity("in", c), v)]),
+                    "array": _all_equal([Array(c), Array([], "in", c)]), "fixed": _all_equal([FixedArray(2, c), FixedArray(2, c, [0.0, 0.0], "in")]), "unit": (Scalar(c).GetUnit(), "in")}
+        if cfg["k"] == "aux_exotic_values":
+            # auxiliary, concrete: amounts that are not floats (big ints, Decimal, Fraction, bool, numpy scalars) through every Scalar form
+            import decimal
+            import fractions
+            import numpy
+
+            u = cfg["u"]
+            c = db.GetDefaultCategory(u)
+            q = ObtainQuantity(u, c)
+            bad = []
+            for val in (2**53 + 1, 10**23, -(10**17) - 1, decimal.Decimal("0.1"), fractions.Fraction(1, 3), True, numpy.float32(0.1), numpy.int64(7), numpy.float64(2.5), 3):
+                try:
+                    forms = [Scalar(val, u), Scalar(val, u, c), Scalar(c, val, u), Scalar((val, u)), Scalar(q, val), Scalar.CreateWithQuantity(q, val), Scalar(1.0, u).CreateCopy(value=val)]
+                    if _all_equal(forms) or any(type(f.GetValue()) is not float for f in forms) or not (eval(repr(forms[5]), {"Scalar": Scalar}) == forms[0]):
+                        bad.append((repr(val), _all_equal(forms), [type(f.GetValue()).__name__ for f in forms]))
+                except Exception as e:  # noqa
+                    bad.append((repr(val), type(e).__name__))
+            return {"aux_bad": bad}
         if cfg["k"] == "captioned":
             from collections import OrderedDict
             from barril.units import GetUnknownQuantity, Quantity
@@ -183,6 +211,11 @@ def props(cfg, T, obs):
         return [("every documented construction form is accepted", False)]
     if cfg["k"] == "nocat":
         return [("a unit without any default category is rejected with UnitsError, not built inconsistently", obs["nocat_exc"] in ("UnitsError", "InvalidUnitError", "InvalidQuantityTypeError"))]
+    if cfg["k"] == "aux_exotic_values":
+        return [("auxiliary, concrete (not solver-decided): amounts that are not floats (big ints, Decimal, Fraction, bool, numpy scalars) build equal Scalars holding a float in every form", obs["aux_bad"] == [])]
+    if cfg["k"] == "cat_fractional_default":
+        return [("a category with an arbitrary (fractional) default value: the object built from the category alone equals the one built from default value and unit, every class",
+                 obs["scalar"] == [] and obs["fraction"] == [] and obs["array"] == [] and obs["fixed"] == [] and obs["unit"][0] == obs["unit"][1])]
     if cfg["k"] == "captioned":
         return [("forms taking a captioned quantity build equal objects that keep the caption", all(b == [] for b in obs["bad"].values()) and all(c == obs["want_caption"] for c in obs["captions"]))]
     if cfg["k"] == "cat_redefined":
